@@ -3,7 +3,7 @@
    spellings are "explicit width", and the canonical signature text of a type of Abi/Types.v.
    Shares only the data types (schema, fparam) with the model. *)
 From Coq Require Import String.
-From Coq Require Import List NArith ZArith Bool Arith.
+From Coq Require Import List NArith ZArith Bool Arith Permutation.
 From Coq Require Import Init.Byte.
 From FFS Require Import Base.Res Base.Bytes Abi.Types Gen.AbiConsts AbiType.Syntax AbiType.Model Ffi.Model.
 Import ListNotations.
@@ -183,3 +183,39 @@ Definition named (e : entry) : bool := negb (is_nil_b (e_name e)).
    compile accepts it and json.Unmarshal yields the struct that was marshalled *)
 Definition faithful (pn : pin) (ns : bytes * schema) : Prop :=
   pi_name pn = fst ns /\ pi_verdict pn = true /\ pi_unm pn = Some (Some (snd ns)).
+
+(* ---------- Go map order ---------- *)
+
+(* same class, same value when Ok (error codes may differ: which member is reported first) *)
+Definition requiv {A} (a b : res A) : Prop :=
+  match a, b with
+  | Ok x, Ok y => x = y
+  | Err _, Err _ => True
+  | Panic, Panic => True
+  | _, _ => False
+  end.
+
+(* [sperm s s']: s' is s with the entries of every Properties map, at every depth, in another order
+   (what a different iteration order of the Go maps amounts to) *)
+Definition orel (R : schema -> schema -> Prop) (a b : option schema) : Prop :=
+  match a, b with Some x, Some y => R x y | None, None => True | _, _ => False end.
+
+Fixpoint sperm (s s' : schema) {struct s} : Prop :=
+  match s, s' with
+  | Schema t o d props items, Schema t' o' d' props' items' =>
+      t = t' /\ o = o' /\ d = d' /\
+      (exists mid, Permutation mid props' /\
+         (fix rel (l m : list (bytes * option schema)) {struct l} : Prop :=
+            match l, m with
+            | [], [] => True
+            | (k, v) :: l1, (k', v') :: m1 =>
+                k = k' /\ match v, v' with Some x, Some y => sperm x y | None, None => True | _, _ => False end
+                /\ rel l1 m1
+            | _, _ => False
+            end) props mid) /\
+      match items, items' with Some x, Some y => sperm x y | None, None => True | _, _ => False end
+  end.
+
+(* as [faithful], but json.Unmarshal's struct is ranged over in any order *)
+Definition faithful_upto (pn : pin) (ns : bytes * schema) : Prop :=
+  pi_name pn = fst ns /\ pi_verdict pn = true /\ exists s', pi_unm pn = Some (Some s') /\ sperm (snd ns) s'.
